@@ -403,7 +403,8 @@ static int step(prog_t* P) {
       return 1;
     }
     case 14: {  // vmp_prepare_contiguous from fresh small matrix
-      const uint64_t nrows = 1 + rng_u64(r) % 4, ncols = 1 + rng_u64(r) % 6;
+      // usually up to 4 x 6; one matrix in six is wide (up to 210 columns: the prepared layout indexes by (row, column))
+      const uint64_t nrows = 1 + rng_u64(r) % 4, ncols = ((rng_u64(r) % 6) || N > 256) ? 1 + rng_u64(r) % 6 : 7 + rng_u64(r) % 204;
       val_t* pm = newpmat(P, nrows, ncols);
       if (!pm) return 0;
       gbuf_t gm, gt;
